@@ -2,7 +2,7 @@
    The theorems are about ordering and gating in the model. PARTIAL: that OpenSSL actually encrypts, verifies the
    chain, or reports a missing close-notify as an error is runtime behaviour, observed by the correspondence
    (raw bytes ahead of the peer's TLS engine), not provable here. *)
-From LibFtp Require Import Bytes Decimal Reply Endpoint Ascii DataConn DataConn_Proofs Client Client_Proofs Login_Proofs Transfer_Proofs Transfer_More Tls_Failures Modes_Proofs Ctl_Proofs History_Proofs History2_Proofs Session_Proofs.
+From LibFtp Require Import Bytes Decimal Reply Endpoint Ascii DataConn DataConn_Proofs Client Client_Proofs Login_Proofs Transfer_Proofs Transfer_More Tls_Failures Tls_Global Modes_Proofs Ctl_Proofs History_Proofs History2_Proofs Session_Proofs.
 Local Open Scope N_scope.
 
 (* every command line is written inside TLS exactly when the TLS layer of the control socket is up; between the
@@ -183,3 +183,51 @@ Print Assumptions C11_handshake_failure_sends_nothing_more.
 Theorem C11_after_failed_handshake_nothing_is_sent : forall w line, w_ssl w = true -> w_tls_up w = false -> do_send w line = None.
 Proof. exact after_failed_handshake_nothing_is_sent. Qed.
 Print Assumptions C11_after_failed_handshake_nothing_is_sent.
+
+(* ------------------------------------------------------------------ every history, every state, every server *)
+(* [gx w w']: w' is w with events added to the trace, none of which is a command line written in clear text - except
+   the line AUTH TLS. [safe w]: the control connection is closed, or its socket object is a TLS socket (a write then
+   fails or goes through the TLS layer). *)
+
+(* one call: any call but logout, whatever the server does - nothing but AUTH TLS is written in clear text, and the
+   connection is closed or secured again afterwards, unless the call is a connect() that came back with a negative
+   reply or did not come back normally *)
+Theorem C11_call_only_auth_tls_in_clear : forall a w, c_tls (w_cfg w) = true -> safe w -> a <> ALogout ->
+  gx w (snd (step w a)) /\ (safe (snd (step w a)) \/ (is_connect a /\ bad_outcome (fst (step w a)))).
+Proof. exact step_clear_text. Qed.
+Print Assumptions C11_call_only_auth_tls_in_clear.
+
+(* the logout call itself stays inside TLS (what follows a positive reply to REIN is outside the property's span) *)
+Theorem C11_logout_call_inside_tls : forall w, safe w -> gx w (snd (step w ALogout)).
+Proof. exact logout_clear_text. Qed.
+Print Assumptions C11_logout_call_inside_tls.
+
+(* every history without logout, from a fresh client or any state closed-or-secured, against every server: if the
+   application never goes on after a connect() that was refused or failed, AUTH TLS is the only line ever written in
+   clear text - USER, PASS and every other command of every call travel inside TLS *)
+Theorem C11_history_only_auth_tls_in_clear : forall cs w, c_tls (w_cfg w) = true -> safe w ->
+  Forall (fun a => a <> ALogout) cs ->
+  (forall a o, In (a, o) (combine cs (fst (steps w cs))) -> is_connect a -> ~ bad_outcome o) ->
+  gx w (snd (steps w cs)) /\ safe (snd (steps w cs)).
+Proof. exact history_clear_text. Qed.
+Print Assumptions C11_history_only_auth_tls_in_clear.
+
+Example C11_history_example :
+  let w0 := init_world (mkConfig Passive true TBinary true false) accepted_script in
+  let cs := [AConnect [104%N] 21%N None; ALogin [117%N] [112%N]; ASimple [78;79;79;80]%N None] in
+  safe w0 /\
+  (forall a o, In (a, o) (combine cs (fst (steps w0 cs))) -> is_connect a -> ~ bad_outcome o) /\
+  filter (fun e => match e with EWire false _ _ => true | _ => false end) (w_trace (snd (steps w0 cs))) = [EWire false 1 AUTH_TLS].
+Proof. split; [apply init_safe|exact history_clear_text_example]. Qed.
+
+(* REFUTED without that proviso - recorded finding tls/clear-text-session-after-refused-connect: AUTH TLS answered 530,
+   connect() returns [220; 530] and leaves the connection open and unsecured; login() on the same client then writes
+   USER and PASS in clear text although the client has a TLS context *)
+Theorem C11_clear_text_after_refused_connect_refuted :
+  let w0 := init_world (mkConfig Passive true TBinary true false) refused_script in
+  let '(os, w) := steps w0 [AConnect [104%N] 21%N None; ALogin [117%N] [112%N]] in
+  os = [OReturn (RvReplies [mkReply 220 []; mkReply 530 []]);
+        OReturn (RvReplies [mkReply 331 []; mkReply 230 []; mkReply 200 []; mkReply 200 []; mkReply 200 []])] /\
+  In (EWire false 2 (USER_ ++ [SP; 117%N])) (w_trace w) /\ In (EWire false 3 (PASS_ ++ [SP; 112%N])) (w_trace w).
+Proof. exact clear_text_after_refused_auth_refuted. Qed.
+Print Assumptions C11_clear_text_after_refused_connect_refuted.
